@@ -12,26 +12,32 @@ MkHG(V, Es) == [nodes |-> V,
                 E     |-> [k \in {Key(e, {}, 0) : e \in Es} |-> [w |-> 1, md |-> NoMeta]],
                 nmd   |-> [n \in V |-> NoMeta], hmd |-> NoMeta, wtd |-> FALSE]
 Connected(S) == Cardinality(Components(S, NoF)) = 1
-Init == /\ st \in {MkHG(Node, Es) : Es \in {X \in SUBSET EdgeU : Cardinality(X) <= MaxEdges}}
-        /\ Connected(st)
-Next == UNCHANGED st
+\* every hyperedge set is reached by inserting hyperedges one at a time (so TLC's workers share
+\* the enumeration); the invariants speak about the connected ones on the full node set
+Init == st = MkHG(Node, {})
+Next == /\ Cardinality(Keys(st)) < MaxEdges
+        /\ \E e \in EdgeU \ HEdges(st) : st' = MkHG(Node, HEdges(st) \cup {e})
+Conn == Connected(st)
 
-ConnectedMeansDefined == RWDefined(st)
-RowStochastic == \A i \in st.nodes :
-   /\ LET F(j) == RWK(st, i, j) IN RSumSet(F, st.nodes) = ROne
-   /\ \A j \in st.nodes : RLeq(RZero, RWK(st, i, j)) /\ RLeq(RWK(st, i, j), ROne)
-KProportionalToWeight == \A i, j \in st.nodes :
-   /\ RSame(RWK(st, i, j), <<RWWeight(st, i, j), RWRow(st, i)>>)
+ConnectedMeansDefined == Conn => RWDefined(st)
+RowStochastic == Conn => LET K == RWKMat(st) IN \A i \in st.nodes :
+   /\ LET F(j) == K[i, j] IN RSumSet(F, st.nodes) = ROne
+   /\ \A j \in st.nodes : RLeq(RZero, K[i, j]) /\ RLeq(K[i, j], ROne)
+KProportionalToWeight == Conn => LET K == RWKMat(st) IN \A i, j \in st.nodes :
+   /\ RSame(K[i, j], <<RWWeight(st, i, j), RWRow(st, i)>>)
    /\ RWWeight(st, i, j) = RWWeight(st, j, i)
-   /\ (RWK(st, i, j)[1] > 0) <=> (i # j /\ Share(st, i, j) # {})
-PiIsDistribution ==
-   /\ LET F(i) == RWPi(st, i) IN RSumSet(F, st.nodes) = ROne
-   /\ \A i \in st.nodes : RWPi(st, i)[1] > 0
-PiStationary == LET pi == [i \in st.nodes |-> RWPi(st, i)] IN RWPush(st, pi) = pi
-DetailedBalance == \A i, j \in st.nodes : RMul(RWPi(st, i), RWK(st, i, j)) = RMul(RWPi(st, j), RWK(st, j, i))
+   /\ (K[i, j][1] > 0) <=> (i # j /\ Share(st, i, j) # {})
+PiIsDistribution == Conn => LET pi == RWPiVec(st) IN
+   /\ LET F(i) == pi[i] IN RSumSet(F, st.nodes) = ROne
+   /\ \A i \in st.nodes : pi[i][1] > 0
+PiStationary == Conn => LET pi == RWPiVec(st) IN RWPush(st, pi) = pi
+DetailedBalance == Conn => LET K == RWKMat(st) pi == RWPiVec(st) IN
+   \A i, j \in st.nodes : RMul(pi[i], K[i, j]) = RMul(pi[j], K[j, i])
 \* mass conservation of one density step, for the point masses and the uniform density
-PushKeepsMass ==
+PushKeepsMass == Conn =>
    LET n == Cardinality(st.nodes)
        ds == {[i \in st.nodes |-> IF i = a THEN ROne ELSE RZero] : a \in st.nodes} \cup {[i \in st.nodes |-> <<1, n>>]}
-   IN \A d \in ds : RWMass(st, RWPush(st, d)) = ROne /\ RWMass(st, RWPush(st, RWPush(st, d))) = ROne
+       K == RWKMat(st)
+   IN \A d \in ds : LET d1 == RWPushK(st.nodes, K, d) IN
+         RWMass(st, d1) = ROne /\ RWMass(st, RWPushK(st.nodes, K, d1)) = ROne
 =============================================================================
